@@ -283,8 +283,13 @@ def main() -> int:
         "wall_s": round(time.time() - t0, 2),
         "violations": 0 if violation is None else 1,
     }
-    os.makedirs(os.path.join(C.VERIF, "evidence"), exist_ok=True)
-    with open(os.path.join(C.VERIF, "evidence", f"{prop}.json"), "w") as f:
+    # evidence/<id>.json describes a run against /repo with the project's own Lean directory; a maintenance run against some other
+    # tree (a seeded change in a scratch worktree, VERIF_REPO / VERIF_LEAN_DIR / VERIF_EVIDENCE_DIR set) keeps its record elsewhere
+    evdir = os.environ.get("VERIF_EVIDENCE_DIR") or (
+        os.path.join(C.VERIF, ".work", "evidence-scratch") if (os.environ.get("VERIF_REPO") or os.environ.get("VERIF_LEAN_DIR"))
+        else os.path.join(C.VERIF, "evidence"))
+    os.makedirs(evdir, exist_ok=True)
+    with open(os.path.join(evdir, f"{prop}.json"), "w") as f:
         json.dump(ev, f, indent=1, default=str)
 
     print(f"{prop} {a.tier} seed={seed}: theorems={len(names)} examples={n_ex} proofs={'ok' if proof_ok else 'BROKEN'} "
